@@ -187,6 +187,19 @@ let handle (fields : string list) : string =
      | NeedTarget -> "{\"r\":\"needtarget\"}"
      | BadPick -> "{\"r\":\"badpick\"}"
      | OutOfFuel -> "{\"r\":\"outoffuel\"}")
+  | [ "sys"; comps; smw ] ->
+    let comp_of s = match s with
+      | "n" -> None
+      | _ -> let v = q_of_string (String.sub s 2 (String.length s - 2)) in
+        if s.[0] = 'a' then Some { x_abs = Some v; x_rel = None; x_sys = None }
+        else if s.[0] = 'r' then Some { x_abs = None; x_rel = Some v; x_sys = None }
+        else Some { x_abs = None; x_rel = None; x_sys = None } in
+    let cs = List.map comp_of (split_nonempty ',' comps) in
+    let oq = function None -> "-" | Some v -> string_of_q v in
+    let show = function None -> "none" | Some m -> oq m.x_abs ^ ";" ^ oq m.x_rel ^ ";" ^ oq m.x_sys in
+    (match estimate cs (if smw = "N" then None else Some (q_of_string smw)) with
+     | OK (g, out) -> "OK " ^ (if g then "T" else "F") ^ " " ^ String.concat "," (List.map show out)
+     | Err (e, _) -> "ERR " ^ err_name e)
   | [ "float"; s ] ->
     (match py_float (explode (unhex s)) with None -> "ERR" | Some x -> string_of_num x ^ " " ^ implode (fprint x))
   | [ "repr"; s ] -> py_repr (float_of_string s)
